@@ -98,6 +98,7 @@ fn cmd_worker(args: &[String]) -> i32 {
     let stdin = std::io::stdin();
     let stdout = std::io::stdout();
     let mut minimised = 0u32;
+    let runlog = std::env::var_os("VERIF_RUNLOG").is_some();
     for line in stdin.lock().lines() {
         let line = line.unwrap();
         let mut it = line.split_whitespace();
@@ -114,7 +115,13 @@ fn cmd_worker(args: &[String]) -> i32 {
                 o.flush().unwrap();
             }
             let s = run_seed(seed, prop.id(), i);
-            for mut v in prop.run(s, i, tier, &mut stats) {
+            stats.run_acc = 0;
+            let vs = prop.run(s, i, tier, &mut stats);
+            if runlog {
+                let mut o = stdout.lock();
+                writeln!(o, "L {i} {} {}", crate::hex(stats.run_acc), vs.len()).unwrap();
+            }
+            for mut v in vs {
                 v.seed = s;
                 v.index = i;
                 stats.inc("violations_raw");
@@ -311,6 +318,7 @@ fn cmd_check(args: &[String]) -> i32 {
     let mut truncated = false;
     let mut aborts = 0u32;
     let mut harness_msg: Option<String> = None;
+    let mut runlog: Vec<String> = vec![];
 
     let assign = |w: &mut Worker, queue: &mut VecDeque<(u64, u64)>, stop: bool| {
         if stop {
@@ -345,7 +353,9 @@ fn cmd_check(args: &[String]) -> i32 {
         match msg {
             Msg::Line(wid, line) => {
                 let Some(w) = workers.get_mut(&wid) else { continue };
-                if let Some(rest) = line.strip_prefix("H ") {
+                if let Some(rest) = line.strip_prefix("L ") {
+                    runlog.push(rest.to_string());
+                } else if let Some(rest) = line.strip_prefix("H ") {
                     harness_msg = Some(rest.to_string());
                 } else if let Some(rest) = line.strip_prefix("R ") {
                     w.last = rest.parse().ok();
@@ -408,6 +418,10 @@ fn cmd_check(args: &[String]) -> i32 {
     }
     drop(tx);
 
+    if let Some(path) = std::env::var_os("VERIF_RUNLOG") {
+        runlog.sort_by_key(|l| l.split_whitespace().next().and_then(|x| x.parse::<u64>().ok()).unwrap_or(0));
+        let _ = std::fs::write(path, runlog.join("\n") + "\n");
+    }
     // ---- classify violations
     let mut known_hit: BTreeMap<String, (String, u64)> = BTreeMap::new();
     let mut novel: Vec<Violation> = vec![];
